@@ -6,7 +6,8 @@ V = os.path.dirname(os.path.dirname(os.path.abspath(__file__)))
 pats = sorted(glob.glob(V + "/seeded/*/*/patch.diff")) + sorted(glob.glob(V + "/selftest/mutants/*/*.diff")) + sorted(glob.glob(V + "/selftest/benign/*/*.diff"))
 if len(sys.argv) > 1:
     pats = [p for p in pats if any(a in p for a in sys.argv[1:])]
-subprocess.run([sys.executable, V + "/tools/seedscan.py"] + pats, stdout=subprocess.DEVNULL, stderr=subprocess.DEVNULL)
+subprocess.run([sys.executable, V + "/tools/seedscan.py"] + pats, stdout=subprocess.DEVNULL, stderr=subprocess.DEVNULL,
+               env=dict(os.environ, SEEDSCAN_RELEVANT="1"))
 res = json.load(open("/tmp/seedscan.json"))
 bad = 0
 for p in pats:
